@@ -235,8 +235,7 @@ func vhC08RefsClosed(symParam, symReturn bool) {
 		err30 = swagen30.GenerateControllersSpec(doc30, cfg, defs)
 	}
 	if err30 != nil {
-		symxCover("C08.refs.generation-refused")
-		return // a refused generation writes nothing (gate harness)
+		return // a refused generation writes nothing (gate harness); not reached on the pinned tree
 	}
 	exists := func(ref string) bool {
 		const pre = "#/components/schemas/"
